@@ -79,7 +79,7 @@ def r6_2_manager(ctx, prog):
                      "clears the schedule")
     paths, info = C.explore_fn(prog, MGR + "::next_rto", "m", [r"\{closure"])
     ctx.fn(info["body"])
-    deadline = ("Instant::add", "top:m.latest.0", "top:m.last_rto")
+    deadline = ("Instant::add", "top:m.latest.some", "top:m.last_rto")
     seen = {}
     for pa in paths:
         latest = pa.choice(r"^variant\(m\.latest\)$")
@@ -96,7 +96,7 @@ def r6_2_manager(ctx, prog):
             first = pa.choice(r"^variant\(ret:next_rto@")
             key = "first:%s" % first
             if first == "Some":
-                t = (("RtoCalculator::next_rto", "top:m.calculator"), ".0")
+                t = (("RtoCalculator::next_rto", "top:m.calculator"), ".some")
                 ok = len(calc) == 1 and r == ("Option::Some", t) and w == {"last_rto": t, "latest": ("Option::Some", "top:instant")}
             else:
                 ok = len(calc) == 1 and r == "Option::None" and not w
@@ -118,7 +118,7 @@ def r6_2_manager(ctx, prog):
                 k = len(calc)
                 key = "due:Some:slots=%s" % (k if k <= 2 else "many")
                 if ok and k == 1:
-                    t1 = (("RtoCalculator::next_rto", "top:m.calculator"), ".0")
+                    t1 = (("RtoCalculator::next_rto", "top:m.calculator"), ".some")
                     ok = v[1] == ("Instant::add", deadline, t1)
                 elif ok:
                     ok = "RtoCalculator::next_rto" in repr(v[1]) or "widened" in repr(v[1])
